@@ -65,6 +65,11 @@ type c20Flow struct {
 	AcceptDelta int64 `json:"accept_amount_delta,omitempty"`
 	// BuyerInscrLen: payload bytes of the inscription the buyer receives the ordinal into (0 = 3 bytes)
 	BuyerInscrLen int `json:"buyer_inscription_bytes,omitempty"`
+	// OneScriptObject: dummy output script and change script are the very same *bscript.Script
+	OneScriptObject bool `json:"dummy_and_change_are_one_script_object,omitempty"`
+	// ExpectOther: the offer is validated against an ordinal that differs from the offered one
+	// in its output index (1), its txid (2) or both (3): such an offer must be refused
+	ExpectOther int `json:"validate_against_other_outpoint,omitempty"`
 }
 
 type c20Inscr struct {
@@ -204,6 +209,22 @@ func c20JudgeFlow(c *mon.Ctx, f *c20Flow) {
 		buyerRecv = t.Outputs[0].LockingScript
 	}
 	dummyScript := bscript.NewFromBytes(append([]byte{}, *buyerScript...))
+	if f.OneScriptObject {
+		dummyScript = changeScript
+	}
+	// the ordinal an offer is validated against
+	expected := ordUTXO
+	if f.ExpectOther != 0 {
+		e := *ordUTXO
+		if f.ExpectOther&1 != 0 {
+			e.Vout = ordUTXO.Vout + 1
+		}
+		if f.ExpectOther&2 != 0 {
+			e.TxID = append([]byte{}, ordUTXO.TxID...)
+			e.TxID[5] ^= 0x10
+		}
+		expected = &e
+	}
 	var final *bt.Tx
 	var err error
 	var sellerOut *bt.Output
@@ -226,7 +247,7 @@ func c20JudgeFlow(c *mon.Ctx, f *c20Flow) {
 			wire.Inputs[0].PreviousTxScript = ordUTXO.LockingScript
 			wire.Inputs[0].PreviousTxSatoshis = 1
 			args := &ord.AcceptListingArgs{PSTx: wire, UTXOs: utxos, BuyerReceiveOrdinalScript: buyerRecv, DummyOutputScript: dummyScript, ChangeScript: changeScript, FQ: fq}
-			vla := &ord.ValidateListingArgs{ListedOrdinalUTXO: ordUTXO}
+			vla := &ord.ValidateListingArgs{ListedOrdinalUTXO: expected}
 			if f.Flow == "listing" {
 				wantSellerIdx = 1
 				final, err = ord.AcceptOrdinalSaleListing(ctx, vla, args)
@@ -241,7 +262,7 @@ func c20JudgeFlow(c *mon.Ctx, f *c20Flow) {
 			if err != nil {
 				return
 			}
-			final, err = ord.AcceptBidToBuy1SatOrdinal(ctx, &ord.ValidateBidArgs{OrdinalUTXO: ordUTXO, BidAmount: uint64(int64(f.Price) + f.AcceptDelta), ExpectedFQ: fq},
+			final, err = ord.AcceptBidToBuy1SatOrdinal(ctx, &ord.ValidateBidArgs{OrdinalUTXO: expected, BidAmount: uint64(int64(f.Price) + f.AcceptDelta), ExpectedFQ: fq},
 				&ord.AcceptBidArgs{PSTx: pstx, SellerReceiveScript: bscript.NewFromBytes(append([]byte{}, *sellerRecv...)), OrdinalUnlocker: sellerUnlocker})
 		case "bid-2d":
 			var pstx *bt.Tx
@@ -278,6 +299,10 @@ func c20JudgeFlow(c *mon.Ctx, f *c20Flow) {
 		return
 	}
 	c.Count("flow:" + f.Flow + ":completed")
+	if f.ExpectOther != 0 && f.Flow != "bid-2d" {
+		c.Violationf("C20:completed-although-the-offer-spends-another-outpoint:"+f.Flow, "the offer spends %x:%d, it was validated against %x:%d (mismatch kind %d) and the flow completed a transaction instead of refusing", f.OrdTxID, f.OrdVout, expected.TxID, expected.Vout, f.ExpectOther)
+		return
+	}
 	good := true
 	// (1) every input is accepted by the interpreter against the coin it spends
 	inSum, outSum := new(big.Int), new(big.Int)
@@ -507,6 +532,10 @@ func init() {
 			}
 			f.FundShare = prng.Pick(r, []int{0, 0, 0, 1, 2, 3})
 			f.Wallet = prng.Pick(r, []int{0, 0, 1, 2, 3, 3})
+			f.OneScriptObject = f.ChangeLen == 25 && i%5 == 3
+			if i%9 == 4 {
+				f.ExpectOther = 1 + int(i/9)%3
+			}
 			if f.BuyerInscr && r.Chance(1, 3) {
 				f.BuyerInscrLen = prng.Pick(r, []int{16385, 20000, 40000})
 			}
